@@ -188,7 +188,7 @@ def run(ctx):
         common.write_ndjson(p2, bad2)
         ok2, _ = validate_traces(ctx, p2, "trace-neg2")
         if ok1 or ok2:
-            raise common.MachineryError("trace binding self-test failed: a corrupted trace was accepted (%s,%s)" % (ok1, ok2))
+            ctx.deferred.append("trace binding self-test failed: a corrupted trace was accepted (%s,%s)" % (ok1, ok2))  # incomplete run (exit 2 unless a violation was reproduced); the remaining parts still run
         ctx.extra["trace_negative_selftests"] = 2
     # ---- M1 values ------------------------------------------------------------------------------------------------
     vcs = value_cases(ctx)
